@@ -20,7 +20,12 @@ def _worker(args):
     R = lea_rules.Rules(fx, I)
     I.checkers.append(R.check_segment)
     top = lea_run.symbolic_mode(name, ctor, fields)
-    st = lea_run.base_state([top], ckpt=ckpt, default_bottom=(name == "Default"))
+    below = []
+    if name == "MakeCheckpoint":
+        # context established by rule R-CKPT/MAKE-CHECKPOINT-CONTEXT
+        below = [lea_run.symbolic_mode(*mv["MaybeMacroCallArgAssign"], tag="below"),
+                 lea_run.symbolic_mode(*mv["WsOrCStyleCommentOnly"], tag="below")]
+    st = lea_run.base_state(below + [top], ckpt=ckpt, default_bottom=(name == "Default"))
     lea_run.seed_mode_facts(fx, st, top)
     la0 = lea.LA("main", 0, 0)
     err = None
